@@ -112,6 +112,7 @@ pub fn replay_rows(tlc_out: &str, rep: &mut Report) {
 fn replay_some(rows: &[String], rep: &mut Report) {
     for payload in rows {
         let payload = payload.clone();
+        rep.ctx = Some(json!({"sub": "sess-replay", "row": payload}));
         let Ok(row) = serde_json::from_str::<J>(&payload) else {
             rep.count("rows_unparsable");
             continue;
